@@ -273,6 +273,10 @@ def run_native(c, case, concrete, seed=0, history=None):
     (contracts.verify_contract); the comparison is about that later call."""
     from . import frame
     SEED[0] = seed
+    if getattr(c, "native_overrides", None):
+        # values at which a float64 comparison is meaningful for this contract (e.g. a diffusivity that does not flatten the
+        # field to rounding noise before it is normalised by its own maximum)
+        concrete = dict(concrete, **c.native_overrides)
     eng = ConcreteEngine(f"replay:{c.qualname}[{case.label}]", concrete)
     prev, engine.CURRENT = engine.CURRENT, eng
     sym.CONCRETE_ABSTRACT[0] = True
